@@ -84,13 +84,14 @@ def schema_mof(assocs):
     return '\n'.join(out)
 
 
-def node_subtree(cls):
+def node_subtree(cls, node_classes=None):
     """node classes that are `cls` (case-insensitively) or below it"""
-    res = [n for n, _ in NODE_CLASSES if n.lower() == cls.lower()]
+    node_classes = node_classes or NODE_CLASSES
+    res = [n for n, _ in node_classes if n.lower() == cls.lower()]
     changed = True
     while changed:
         changed = False
-        for n, s in NODE_CLASSES:
+        for n, s in node_classes:
             if s and s.lower() in [r.lower() for r in res] and n not in res:
                 res.append(n)
                 changed = True
@@ -468,9 +469,14 @@ class Oracle:
     def __init__(self, conn, spec, keys, violate, count, call):
         self.conn, self.spec, self.keys, self.violate, self.count, self.call = conn, spec, keys, violate, count, call
 
+    phase = None
+
     def case(self, req):
         r = {k: v for k, v in req.items() if not k.startswith('_')}
-        return {'spec': self.spec, 'req': r}
+        c = {'spec': self.spec, 'req': r}
+        if self.phase is not None:
+            c['phase'] = self.phase
+        return c
 
     def check_instance(self, req, names_out, full_out):
         """req: an 'RN' or 'AN' request; names_out/full_out: canonical real outcomes of Names and full op"""
@@ -881,72 +887,272 @@ def run_repo(spec, only_req=None):
     orc = Oracle(conn, spec, keys, violate, count, do)
     orc.loaded = any(k.startswith('loaded:') for k in notes)
     thorough = spec.get('thorough', False)
-    if only_req is not None:
-        groups = [only_req]
+    lines = []
+    start = [0]
+
+    def flush():
+        """model request line for the requests made since the last flush, with the stores as they are NOW"""
+        line = {'host': conn.host, 'repo': dump_repo(conn, keys), 'reqs': []}
+        for rq in reqs[start[0]:]:
+            m = model_req(rq)
+            if rq['lvl'] == 'i':
+                m['src'] = pj(rq['_path'], keys)
+                m['uri'] = rq['src']
+            line['reqs'].append(m)
+        lines.append((line, reals[start[0]:]))
+        start[0] = len(reqs)
+
+    def process(groups):
+      for g in groups:
+          lvl = 'instance' if g['lvl'] == 'i' else 'class'
+          if 'f' not in g:      # replay of a single request
+              base = dict(g)
+              is_assoc = base['op'] in ('AN', 'A')
+              g = {'lvl': base['lvl'], 'ns': base['ns'], 'f': {k: base.get(k) for k in ('ac', 'rc', 'role', 'rrole')},
+                   'rf': {'rc': base.get('rc'), 'role': base.get('role')}, 'only': 'A' if is_assoc else 'R'}
+              if lvl == 'instance':
+                  g['_path'] = pywbem.CIMInstanceName.from_wbem_uri(base['src'])
+              else:
+                  g['src'] = base['src']
+          for names_op, full_op, f in (('AN', 'A', g['f']), ('RN', 'R', g['rf'])):
+              if g.get('only') and g['only'] != full_op:
+                  continue
+              rq_n, rq_f = mkreq(g, names_op, f), mkreq(g, full_op, f)
+              o_n, o_f = do(rq_n), do(rq_f)
+              count('op:%s:%s:%s' % (lvl, names_op, o_n.get('exc', 'ok') + str(o_n.get('code', ''))))
+              nonempty = 'ok' in o_n and bool(o_n['ok'])
+              cases.append((case_id(rq_n), nonempty))
+              if nonempty:
+                  count('nonempty:%s:%s' % (lvl, names_op))
+              nact = sum(1 for k in ('ac', 'rc', 'role', 'rrole') if active(f.get(k)))
+              count('filters_active:%d' % nact)
+              if lvl == 'instance':
+                  orc.check_instance(rq_n, o_n, o_f)
+              else:
+                  orc.check_class(rq_n, o_n, o_f)
+              # monotonicity: drop each active filter in turn
+              for k in ('ac', 'rc', 'role', 'rrole'):
+                  if active(f.get(k)):
+                      f2 = dict(f)
+                      f2[k] = None
+                      rq_p = mkreq(g, names_op, f2)
+                      o_p = do(rq_p)
+                      orc.check_monotone(rq_n, o_n, rq_p, o_p, lvl)
+              # case-insensitivity
+              if rng.random() < 0.5:
+                  rq_c = recase_req(rq_n, rng)
+                  o_c = do(rq_c)
+                  orc.check_case(rq_n, o_n, rq_c, o_c, lvl)
+              # symmetry (ResultClass left out: it filters the far end only)
+              if lvl == 'instance' and names_op == 'AN' and not active(f.get('rc')):
+                  orc.check_symmetry(rq_n, o_n, None)
+              # Open.../Iter... variants
+              if lvl == 'instance' and (rng.random() < 0.3 or g.get('only')):
+                  for rq, o in ((rq_n, o_n), (rq_f, o_f)):
+                      for var, ov in pull_variants(conn_pull, rq, keys, rng).items():
+                          count('variant:%s' % var)
+                          a = sorted(map(str, (canon_p(p) for p in o['ok']))) if 'ok' in o else o
+                          b = sorted(map(str, (canon_p(p) for p in ov['ok']))) if 'ok' in ov else ov
+                          if a != b:
+                              violate({'kind': 'variant_differs', 'op': rq['op'], 'variant': var, 'level': 'instance'},
+                                      orc.case(rq), {'traditional': a, 'variant': b})
+    if only_req is not None and 'history' not in spec:
+        process([only_req])
+        flush()
+    elif 'history' not in spec:
+        process(gen_requests(spec, conn, rng, thorough))
+        flush()
     else:
-        groups = gen_requests(spec, conn, rng, thorough)
-    for g in groups:
-        lvl = 'instance' if g['lvl'] == 'i' else 'class'
-        if 'f' not in g:      # replay of a single request
-            base = dict(g)
-            is_assoc = base['op'] in ('AN', 'A')
-            g = {'lvl': base['lvl'], 'ns': base['ns'], 'f': {k: base.get(k) for k in ('ac', 'rc', 'role', 'rrole')},
-                 'rf': {'rc': base.get('rc'), 'role': base.get('role')}, 'only': 'A' if is_assoc else 'R'}
-            if lvl == 'instance':
-                g['_path'] = pywbem.CIMInstanceName.from_wbem_uri(base['src'])
-            else:
-                g['src'] = base['src']
-        for names_op, full_op, f in (('AN', 'A', g['f']), ('RN', 'R', g['rf'])):
-            if g.get('only') and g['only'] != full_op:
-                continue
-            rq_n, rq_f = mkreq(g, names_op, f), mkreq(g, full_op, f)
-            o_n, o_f = do(rq_n), do(rq_f)
-            count('op:%s:%s:%s' % (lvl, names_op, o_n.get('exc', 'ok') + str(o_n.get('code', ''))))
-            nonempty = 'ok' in o_n and bool(o_n['ok'])
-            cases.append((case_id(rq_n), nonempty))
-            if nonempty:
-                count('nonempty:%s:%s' % (lvl, names_op))
-            nact = sum(1 for k in ('ac', 'rc', 'role', 'rrole') if active(f.get(k)))
-            count('filters_active:%d' % nact)
-            if lvl == 'instance':
-                orc.check_instance(rq_n, o_n, o_f)
-            else:
-                orc.check_class(rq_n, o_n, o_f)
-            # monotonicity: drop each active filter in turn
-            for k in ('ac', 'rc', 'role', 'rrole'):
-                if active(f.get(k)):
-                    f2 = dict(f)
-                    f2[k] = None
-                    rq_p = mkreq(g, names_op, f2)
-                    o_p = do(rq_p)
-                    orc.check_monotone(rq_n, o_n, rq_p, o_p, lvl)
-            # case-insensitivity
+        # a history on ONE connection: queries, repository growth through every entry point, the same queries again
+        count('history:repositories')
+        state = HistoryState(spec)
+        asked = history_queries(spec, conn, rng, state, first=True)
+        orc.phase = 0
+        process(asked)
+        flush()
+        for k, steps in enumerate(spec['history']):
+            for st in steps:
+                apply_step(conn, spec, state, st, count)
+            orc.phase = k + 1
+            fresh = history_queries(spec, conn, rng, state, first=False)
+            process(asked + fresh)       # earlier queries are asked again, verbatim
+            asked = asked + fresh
+            flush()
+    return {'line': lines[0][0], 'real': lines[0][1], 'lines': lines, 'viol': viol, 'counts': counts, 'cases': cases}
+
+
+# --------------------------------------------------------------------------- histories (growth between queries)
+
+ENTRY_POINTS = ['CreateClass', 'add_cimobjects', 'mof']
+
+
+def gen_history_spec(rng, thorough):
+    """a repository without anomalies + 2-3 phases of growth steps.  Steps:
+      ['class', via, name, super, is_assoc]      new subclass through CreateClass / add_cimobjects / compile_mof_string
+      ['node', ns, cls, id]                      CreateInstance of a node
+      ['link', cls, ns, {role: node index}]      CreateInstance of an association instance
+      ['del_link', k]                            DeleteInstance of the k-th association instance created by the history
+      ['del_class', name]                        DeleteClass of a class added by the history (with its instances)"""
+    for _ in range(50):
+        spec = gen_spec(rng, thorough)
+        if 3 <= len(spec['nodes']) <= 10 and 2 <= len(spec['links']) <= 12:
+            break
+    spec['anomaly'] = None
+    spec['deletions'] = []
+    for ln in spec['links']:
+        ln['mode'] = 'create'
+    node_classes = list(NODE_CLASSES)
+    assocs = [list(a) for a in spec['assocs']]
+    nodes = [list(n) for n in spec['nodes']]
+    new_assoc, nlinks, history = [], 0, []
+    for ph in range(rng.choice([2, 2, 3])):
+        steps = []
+        for _ in range(rng.choice([1, 2, 2, 3])):
+            via = rng.choice(ENTRY_POINTS)
+            name = 'C13_New%d_%d' % (ph, len(steps))
             if rng.random() < 0.5:
-                rq_c = recase_req(rq_n, rng)
-                o_c = do(rq_c)
-                orc.check_case(rq_n, o_n, rq_c, o_c, lvl)
-            # symmetry (ResultClass left out: it filters the far end only)
-            if lvl == 'instance' and names_op == 'AN' and not active(f.get('rc')):
-                orc.check_symmetry(rq_n, o_n, None)
-            # Open.../Iter... variants
-            if lvl == 'instance' and (rng.random() < 0.3 or g.get('only')):
-                for rq, o in ((rq_n, o_n), (rq_f, o_f)):
-                    for var, ov in pull_variants(conn_pull, rq, keys, rng).items():
-                        count('variant:%s' % var)
-                        a = sorted(map(str, (canon_p(p) for p in o['ok']))) if 'ok' in o else o
-                        b = sorted(map(str, (canon_p(p) for p in ov['ok']))) if 'ok' in ov else ov
-                        if a != b:
-                            violate({'kind': 'variant_differs', 'op': rq['op'], 'variant': var, 'level': 'instance'},
-                                    orc.case(rq), {'traditional': a, 'variant': b})
-    # model request line (keys now complete)
-    line = {'host': conn.host, 'repo': dump_repo(conn, keys), 'reqs': []}
-    for rq in reqs:
-        m = model_req(rq)
-        if rq['lvl'] == 'i':
-            m['src'] = pj(rq['_path'], keys)
-            m['uri'] = rq['src']
-        line['reqs'].append(m)
-    return {'line': line, 'real': reals, 'viol': viol, 'counts': counts, 'cases': cases}
+                sup = rng.choice(assocs)[0]
+                assocs.append([name, sup, []])
+                new_assoc.append(name)
+                steps.append(['class', via, name, sup if rng.random() < 0.8 else recase(sup, rng), True])
+            else:
+                sup = rng.choice(node_classes)[0]
+                node_classes.append((name, sup))
+                steps.append(['class', via, name, sup if rng.random() < 0.8 else recase(sup, rng), False])
+        for _ in range(rng.choice([1, 2, 3])):
+            cls = node_classes[-1][0] if rng.random() < 0.6 else rng.choice(node_classes)[0]
+            nd = [rng.choice(spec['nss']), cls, 'h%d' % len(nodes)]
+            nodes.append(nd)
+            steps.append(['node'] + nd)
+        for _ in range(rng.choice([2, 3, 4, 6])):
+            a = assocs[-1] if (new_assoc and assocs[-1][0] in new_assoc and rng.random() < 0.5) else rng.choice(assocs)
+            refs = assoc_refs(assocs, a[0])
+            ns = rng.choice(spec['nss'])
+            ends = {}
+            for role, rc, iskey in refs:
+                cands = [i for i, nd in enumerate(nodes) if nd[1] in node_subtree(rc, node_classes)]
+                newer = [i for i in cands if i >= len(spec['nodes'])]
+                local = [i for i in cands if nodes[i][0] == ns]
+                if not cands:
+                    ends = None
+                    break
+                r = rng.random()
+                ends[role] = rng.choice(newer) if (newer and r < 0.45) else \
+                    (rng.choice(local) if (local and r < 0.85) else rng.choice(cands))
+            if ends:
+                steps.append(['link', a[0], ns, ends])
+                nlinks += 1
+        if nlinks and rng.random() < 0.4:
+            steps.append(['del_link', rng.randrange(nlinks)])
+        if new_assoc and rng.random() < 0.15:
+            leaf = [n for n in new_assoc if not any(b[1] and b[1].lower() == n.lower() for b in assocs)]
+            if leaf:
+                victim = rng.choice(leaf)
+                steps.append(['del_class', victim])
+                new_assoc.remove(victim)
+                assocs[:] = [b for b in assocs if b[0] != victim]
+        history.append(steps)
+    spec['history'] = history
+    return spec
+
+
+class HistoryState:
+    def __init__(self, spec):
+        self.nodes = [list(n) for n in spec['nodes']]
+        self.assocs = [list(a) for a in spec['assocs']]
+        self.link_paths = []
+        self.new_nodes = []
+
+
+def apply_step(conn, spec, state, st, count):
+    """one growth step on the real connection; failures of the step itself are counted, not judged"""
+    import pywbem
+    kind = st[0]
+    try:
+        if kind == 'class':
+            _, via, name, sup, is_assoc = st
+            if is_assoc:
+                state.assocs.append([name, sup, []])
+            for ns in spec['nss']:
+                if via == 'mof':
+                    conn.compile_mof_string('%sclass %s : %s { };' % ('[Association] ' if is_assoc else '', name, sup),
+                                            namespace=ns)
+                else:
+                    c = pywbem.CIMClass(name, superclass=sup,
+                                        qualifiers=[pywbem.CIMQualifier('Association', True)] if is_assoc else [])
+                    if via == 'CreateClass':
+                        conn.CreateClass(c, namespace=ns)
+                    else:
+                        conn.add_cimobjects(c, namespace=ns)
+            count('history:class:' + via)
+        elif kind == 'node':
+            _, ns, cls, nid = st
+            state.nodes.append([ns, cls, nid])
+            state.new_nodes.append([ns, cls, nid])
+            conn.CreateInstance(pywbem.CIMInstance(cls, properties={'id': nid}), namespace=ns)
+            count('history:node')
+        elif kind == 'link':
+            _, cls, ns, ends = st
+            refs = assoc_refs(state.assocs, cls)
+            props = [pywbem.CIMProperty(role, node_path(state.nodes[ends[role]]), type='reference', reference_class=rc)
+                     for role, rc, iskey in refs]
+            state.link_paths.append(None)
+            state.link_paths[-1] = conn.CreateInstance(pywbem.CIMInstance(cls, properties=props), namespace=ns)
+            count('history:link')
+        elif kind == 'del_link':
+            p = state.link_paths[st[1]] if st[1] < len(state.link_paths) else None
+            if p is not None:
+                conn.DeleteInstance(p)
+                state.link_paths[st[1]] = None
+                count('history:del_link')
+        elif kind == 'del_class':
+            for ns in spec['nss']:
+                conn.DeleteClass(st[1], namespace=ns)
+            state.assocs[:] = [b for b in state.assocs if b[0] != st[1]]
+            count('history:del_class')
+    except pywbem.Error as e:
+        count('history:step_failed:%s:%s' % (kind, type(e).__name__))
+
+
+def history_queries(spec, conn, rng, state, first):
+    """request groups of one phase: sources that are referenced by some stored association (first phase) or the
+    nodes the last growth steps added, with filter tuples that have the class filters active (ancestor names of
+    what is stored now, so that later subclasses fall under them); plus class-level requests"""
+    import pywbem
+    groups = []
+    if first:
+        srcs = []
+        for ns in spec['nss']:
+            for i in conn.cimrepository.get_instance_store(ns).iter_values(copy=False):
+                if not any(p.type == 'reference' for p in i.properties.values()):
+                    srcs.append((ns, i.path.copy()))
+        rng.shuffle(srcs)
+        srcs = srcs[:10]
+    else:
+        srcs = [(nd[0], node_path(nd)) for nd in state.new_nodes]
+        state.new_nodes = []
+    assoc_names = [a[0] for a in state.assocs]
+    roots = [a[0] for a in spec['assocs'] if not a[1]]
+    for ns, p in srcs:
+        fs = [{'ac': None, 'rc': None, 'role': None, 'rrole': None}]
+        for _ in range(3):
+            f = relevant_filter(conn, ns, p, rng)
+            if f is not None:
+                fs.append(f)
+        # class filters that name the top of a hierarchy: everything added below later must be found
+        fs.append({'ac': rng.choice(roots) if roots else None, 'rc': rng.choice(['C13_Node', 'C13_Other', 'c13_node']),
+                   'role': None, 'rrole': None})
+        fs.append({'ac': rng.choice(assoc_names), 'rc': None, 'role': None, 'rrole': None})
+        fs.append({'ac': None, 'rc': rng.choice([n for n, _ in NODE_CLASSES]), 'role': None, 'rrole': None})
+        for f in fs:
+            groups.append({'lvl': 'i', 'ns': ns, '_path': p, 'f': f,
+                           'rf': {'rc': f['ac'], 'role': f['role']}})
+    if first:
+        for cn in [n for n, _ in NODE_CLASSES] + roots:
+            groups.append({'lvl': 'c', 'ns': rng.choice(spec['nss']), 'src': cn,
+                           'f': {'ac': rng.choice(roots + [None]) if roots else None, 'rc': None, 'role': None, 'rrole': None},
+                           'rf': {'rc': rng.choice(roots + [None]) if roots else None, 'role': None}})
+    return groups
 
 
 def case_id(req):
@@ -991,7 +1197,11 @@ def run(run):
                 'stored association instance that references the source (then kept / dropped / recased per component); every class and near-miss '
                 'names at class level; each tuple also with each active filter removed (monotonicity), recased '
                 '(case-insensitivity), reversed (symmetry) and through the Open/Pull and Iter variants (connections with use_pull_operations False / None / True); a case = one '
-                '(repository, source, operation pair, filter tuple); non-trivial = non-empty result')
+                '(repository, source, operation pair, filter tuple); non-trivial = non-empty result.  Second stream: '
+                'histories on ONE connection - a query set with active class filters (ancestor names), then 2-3 phases of '
+                'growth (new association / node subclasses through CreateClass, add_cimobjects or compile_mof_string, new nodes '
+                'and association instances of old and new classes, DeleteInstance, DeleteClass), after each phase the SAME '
+                'queries again plus queries for the new nodes, each judged against the raw stores of that moment')
     run.assumptions += [
         'keybinding equality of instance paths is decided by the real CIMInstanceName/NocaseDict equality in the harness '
         '(model: id per equivalence class); it is the subject of C05',
@@ -1004,23 +1214,32 @@ def run(run):
         s = gen_spec(rng, run.thorough)
         s['thorough'] = run.thorough
         specs.append(s)
+    # histories: queries interleaved with repository growth on one connection (own generator so that the
+    # repositories above stay the same for a given seed)
+    hrng = random.Random(run.seed * 7919 + 13)
+    for i in range(120 if run.thorough else 40):
+        s = gen_history_spec(hrng, False)
+        s['thorough'] = False
+        specs.append(s)
     results = common.pmap(_work, specs, procs=4, chunksize=2)
     lines = []
     for r in results:
         if 'crash' in r:
             raise RuntimeError('worker crashed: ' + r['crash'])
-        lines.append(r['line'])
-    answers = common.run_driver(PROP, lines)
-    for spec, r, ans in zip(specs, results, answers):
+        lines += [ln for ln, _ in r['lines']]
+    answers = iter(common.run_driver(PROP, lines))
+    for spec, r in zip(specs, results):
         for k, v in r['counts'].items():
             run.count(k, v)
         for cid, nonempty in r['cases']:
             run.case({'repo': spec['qseed'], 'req': cid}, nontrivial=nonempty)
-        outs = ans.get('outs', [])
-        for rq, real, mo in zip(r['line']['reqs'], r['real'], outs):
-            a, b = canon_model_out(mo, rq), canon_real_out(real, rq)
-            if a != b:
-                run.disagree({'spec': spec, 'req': rq}, a, b, 'traversal %s level %s' % (rq['op'], rq['lvl']))
+        for phase, (line, reals) in enumerate(r['lines']):
+            outs = next(answers).get('outs', [])
+            for rq, real, mo in zip(line['reqs'], reals, outs):
+                a, b = canon_model_out(mo, rq), canon_real_out(real, rq)
+                if a != b:
+                    run.disagree({'spec': spec, 'req': rq, 'phase': phase}, a, b,
+                                 'traversal %s level %s' % (rq['op'], rq['lvl']))
         for sig, case, obs in r['viol']:
             run.violate(sig, case, obs)
     create_k(run)
@@ -1175,7 +1394,7 @@ def replay(payload):
             return False, 'property C13 FAILS (storing side): ' + json.dumps([v[0] for v in viol][:3]) + \
                 '\nreal outcomes: ' + json.dumps(outs)[:1000]
         return True, 'property C13 holds on this CreateInstance sequence; real outcomes: ' + json.dumps(outs)[:1000]
-    r = run_repo(case['spec'], only_req=dict(case['req']))
+    r = run_repo(case['spec'], only_req=dict(case['req']))      # a history spec is re-run as a whole
     known = common.load_known_all()
     sigs = [sig for sig, _, _ in r['viol']]
     unmatched = [g for g in sigs if not any(common.matches(f, PROP, g) for f in known)]
